@@ -985,7 +985,7 @@ f_to_int (void)
     {
     case T_REAL:
       sp->type = T_NUMBER;
-      sp->u.number = (int) sp->u.real;
+      sp->u.number = (int64_t) sp->u.real;	/* LPC integers are 64-bit */
       break;
     case T_STRING:
       {
